@@ -61,10 +61,6 @@ func exceptTarget(m modLoc, a *Term) *Term {
 		if m.exceptFids[int(fid)] {
 			return True
 		}
-		// a field of an embedded protected struct
-		if a.Args[0].Op == "emb" {
-			return exceptTarget(m, a.Args[0])
-		}
 		return False
 	}
 	if a.Op == "obj" || a.Op == "nil" || a.Op == "elem" {
@@ -146,6 +142,21 @@ func (s *State) assume(t *Term) {
 			s.assume(a)
 		}
 		return
+	}
+	if t.Op == "=>" {
+		// distribute over conjunctions and flatten nested implications, so that every quantified fact
+		// becomes its own (guarded) assumption
+		a, b := t.Args[0], t.Args[1]
+		if b.Op == "and" {
+			for _, c := range b.Args {
+				s.assume(Implies(a, c))
+			}
+			return
+		}
+		if b.Op == "=>" {
+			s.assume(Implies(And(a, b.Args[0]), b.Args[1]))
+			return
+		}
 	}
 	for i := len(s.pc) - 1; i >= 0 && i >= len(s.pc)-400; i-- {
 		if s.pc[i] == t {
@@ -1658,6 +1669,28 @@ func (fv *FV) slice(fr *Frame, st *State, x *ssa.Slice) Value {
 	res := SliceV{Arr: base.Arr, Off: fv.addIdx(base.Off, lo), Len: Sub(hi, lo), Cap: Sub(mx, lo)}
 	if isString {
 		res.Cap = res.Len
+	}
+	if st2, ok := x.X.Type().Underlying().(*types.Slice); ok && fv.l.mode == ModeInt {
+		if _, inner := st2.Elem().Underlying().(*types.Slice); inner {
+			// lemmas about the abstract concatenation of a prefix of a [][]byte (sound facts about sums / concatenations)
+			h := st.heap
+			arrRow := h.elemRow(RefSort, 0, base.Arr)
+			offRow := h.elemRow(IntSort, 1, base.Arr)
+			lenRow := h.elemRow(IntSort, 2, base.Arr)
+			_, M0 := h.elemArr(IntSort, 0)
+			sb := App("seglen", IntSort, lenRow, base.Off, base.Len)
+			sr := App("seglen", IntSort, lenRow, res.Off, res.Len)
+			inLen := Le(hi, base.Len)
+			st.assume(Implies(inLen, And(Le(IntLit(0), sr), Le(sr, sb))))
+			fv.nfresh++
+			y := BoundVar(fmt.Sprintf("y!sl%d", fv.nfresh), IntSort)
+			q := Forall([]*Term{y}, Implies(And(Le(IntLit(0), y), Lt(y, sr)),
+				Eq(App("segbyte", IntSort, M0, arrRow, offRow, lenRow, res.Off, res.Len, y), App("segbyte", IntSort, M0, arrRow, offRow, lenRow, base.Off, base.Len, y))))
+			if q.Op == "forall" {
+				q.Pats = [][]*Term{{App("segbyte", IntSort, M0, arrRow, offRow, lenRow, res.Off, res.Len, y)}}
+			}
+			st.assume(Implies(And(inLen, Eq(lo, IntLit(0))), q))
+		}
 	}
 	return res
 }
